@@ -387,6 +387,8 @@ def run_check(modname, tier, seed, only=None, nshards=None, do_shrink=True):
             return 2
         ctx.merge(res)
     run_regress(mod, ctx, only)
+    if hasattr(mod, 'finalize'):
+        mod.finalize(ctx)
     known = load_known()
     fams = {f.name: f for f in mod.FAMILIES}
     nviol = 0
